@@ -1,6 +1,8 @@
 import PewProofs.Export
 import PewProofs.ExportVtk
 import PewProofs.ExportForeign
+import PewProofs.ExportSession
+import PewProofs.ExportBytes
 
 /-! # C16 — property theorems (statements only depend on `PewModel.Export` and the hypothesis
 bundles on the opaque tokens: `Clean` for the number printer/converter (`PewProofs.Export`),
@@ -154,6 +156,161 @@ example : loadFields 2 "1,2\n3\n".toList = none := by decide
 example : loadText convB 2 (saveText fmtB "a\r1".toList [[true], [false]]) = some ([3, 1], [true, true, false]) := by
   decide
 
+
+/-! ### `load` with its options, and calls one after another -/
+
+/-- **a named delimiter**: on every text whose only delimiter character (of `,` `;` tab) is `d`,
+`load(path, delimiter=d)` returns what the default call returns — the same array, or both raise. -/
+theorem explicit_delimiter_agrees (conv : Str → α) (ndmin : Nat) (d : Char) (hd : IsDelim d) (f : Str)
+    (h : ∀ c ∈ f, IsDelim c → c = d) :
+    loadTextD conv (some d) ndmin f = loadText conv ndmin f := by
+  rw [← loadTextD_none]
+  unfold loadTextD loadFieldsD
+  rw [loaderRows_delim d hd f h]
+
+/-- **the file `save` writes, read with `delimiter=","`**: the image again (the model's `save` writes commas;
+the property itself only speaks of the default call, see `Src.image?`). -/
+theorem saved_file_with_comma (fmt : α → Str) (conv : Str → α) (hc : Clean fmt conv)
+    (header : Str) (hh : '\r' ∉ header)
+    (img : List (List α)) (c : Nat) (hr : img ≠ []) (hcpos : 0 < c) (hcols : ∀ row ∈ img, row.length = c) :
+    loadTextD conv (some ',') 2 (saveText fmt header img) = some ([img.length, c], img.flatten) := by
+  have : loadTextD conv (some ',') 2 (saveText fmt header img) = loadTextD conv none 2 (saveText fmt header img) := by
+    unfold loadTextD loadFieldsD
+    rw [loaderRows_saved_comma fmt conv hc header hh img]
+  rw [this, loadTextD_none]
+  exact text_roundtrip fmt conv hc header hh img c hr hcpos hcols
+
+/-- **what a file is read as, by its source and the delimiter named**: an image written by `save` (any header
+without a carriage return) and read with the default call, and an image another tool wrote with a mixture of
+`,` `;` tab read with the default, or with one delimiter throughout read with that delimiter named, load
+to that image: shape `(rows, columns)`, every value at its place.
+`Src.ok`: the decidable well-formedness of the source (see its definition); `Src.image?`: the cases just listed. -/
+theorem source_loads (fmt : α → Str) (conv : Str → α) (hc : Clean fmt conv) (s : Src α) (delim : Option Char)
+    (img : List (List α)) (hok : s.ok = true) (hi : s.image? delim = some img) :
+    loadTextD conv delim 2 (s.text fmt) = some ([img.length, (img.headD []).length], img.flatten) := by
+  cases s with
+  | saved h im =>
+    simp only [Src.image?] at hi
+    split at hi
+    · rename_i hd
+      injection hi with hi
+      subst hi
+      simp only [Src.ok, Bool.and_eq_true, Bool.not_eq_true'] at hok
+      obtain ⟨h1, h2⟩ := hok
+      have hcr : '\r' ∉ h := by
+        intro hm
+        have : h.contains '\r' = true := by simpa using hm
+        rw [this] at h1
+        exact absurd h1 (by decide)
+      obtain ⟨hne, hpos, hcols⟩ := imgOk_spec im h2
+      subst hd
+      simp only [Src.text]
+      rw [loadTextD_none]
+      exact text_roundtrip fmt conv hc h hcr im _ hne hpos hcols
+    · exact absurd hi (by simp)
+  | delimited seps im =>
+    simp only [Src.ok, Bool.and_eq_true, beq_iff_eq, List.all_eq_true] at hok
+    obtain ⟨⟨⟨hlen, hsd⟩, h2⟩, hw⟩ := hok
+    obtain ⟨hne, hpos, hcols⟩ := imgOk_spec im h2
+    have hs : ∀ ss ∈ seps, ∀ x ∈ ss, IsDelim x := fun ss hss x hx => (isDelimB_iff x).mp (hsd ss hss x hx)
+    have base := (delimiters_agree fmt conv hc seps im _ hlen hs hne hpos hcols).2
+    simp only [Src.text]
+    cases delim with
+    | none =>
+      simp only [Src.image?] at hi
+      injection hi with hi
+      subst hi
+      rw [loadTextD_none]
+      exact base
+    | some d =>
+      simp only [Src.image?] at hi
+      split at hi
+      · rename_i hcond
+        injection hi with hi
+        subst hi
+        simp only [Bool.and_eq_true, List.all_eq_true, beq_iff_eq] at hcond
+        obtain ⟨hd, hall⟩ := hcond
+        rw [explicit_delimiter_agrees conv 2 d ((isDelimB_iff d).mp hd)]
+        · exact base
+        · intro c hcm hdc
+          refine mem_saveWith fmt conv hc d seps im hall ?_ c hcm hdc
+          intro p hp
+          have h1 := hw p.1 (List.of_mem_zip hp).1
+          have h3 := hcols p.2 (List.of_mem_zip hp).2
+          omega
+      · exact absurd hi (by simp)
+  | other t => simp [Src.image?] at hi
+
+/-- **a session has no memory but its files**: the calls run one after another, the file system handed
+from each to the next, return exactly what the specification says — every `load` answered from the last
+`put` at its path among the earlier calls and from its own `delimiter` / `name`, from nothing else. -/
+theorem session_stateless (fmt : α → Str) (conv : Str → α) (cs : List (Call α)) :
+    runSession fmt conv [] cs = sessionSpec fmt conv cs :=
+  runSession_from fmt conv [] cs
+
+theorem lastPut_none (p : Nat) (mid : List (Call α)) (h : ∀ q s, Call.put q s ∈ mid → q ≠ p) : lastPut p mid = none := by
+  induction mid with
+  | nil => rfl
+  | cons c cs ih =>
+    simp only [lastPut]
+    rw [ih (fun q s hm => h q s (by simp [hm]))]
+    cases c with
+    | put q s =>
+      have := h q s (by simp)
+      simp [this]
+    | load q d n => rfl
+
+/-- **every load of a session, whatever was called before**: after any calls `pre`, a file put at `p`
+(saved, or written by another tool), any calls `mid` that put nothing at `p` — loads of this or of other
+files with any delimiter and name, saves of other files — a `load(p, delimiter, name)` for which the
+property names the image (`source_loads`) returns that image, as a view with field `name` when one is given;
+whatever follows (`post`). -/
+theorem session_loads (fmt : α → Str) (conv : Str → α) (hc : Clean fmt conv) (pre mid post : List (Call α))
+    (p : Nat) (s : Src α) (delim : Option Char) (name : Option Str) (img : List (List α))
+    (hmid : ∀ q s', Call.put q s' ∈ mid → q ≠ p) (hok : s.ok = true) (hi : s.image? delim = some img) :
+    (runSession fmt conv [] ((pre ++ Call.put p s :: mid) ++ Call.load p delim name :: post))[(pre ++ Call.put p s :: mid).length]?
+      = some (.loaded { shape := [img.length, (img.headD []).length], data := img.flatten, field := name }) := by
+  rw [session_stateless, sessionSpec, specFrom_get]
+  have hget : ((pre ++ Call.put p s :: mid) ++ Call.load p delim name :: post)[(pre ++ Call.put p s :: mid).length]?
+      = some (Call.load p delim name) := by
+    rw [List.getElem?_append_right (Nat.le_refl _)]
+    simp
+  have htake : ((pre ++ Call.put p s :: mid) ++ Call.load p delim name :: post).take (pre ++ Call.put p s :: mid).length
+      = pre ++ Call.put p s :: mid := List.take_left' rfl
+  rw [hget, htake]
+  simp only [Option.map_some, List.nil_append, replyAt]
+  have hlast : lastPut p (pre ++ Call.put p s :: mid) = some s := by
+    rw [lastPut_append]
+    simp [lastPut, lastPut_none p mid hmid]
+  rw [hlast]
+  simp only [loadReply, source_loads fmt conv hc s delim img hok hi]
+
+/-- non-vacuity: a tab-delimited file read with its delimiter named, then a saved image read by default —
+the history of the seeded change C16-c1 — and a view with a field name -/
+example : runSession fmtB convB []
+      [ .put 0 (.delimited [['\t']] [[true, false]]), .load 0 (some '\t') none,
+        .put 1 (.saved [] [[true, false], [false, true]]), .load 1 none (some ['A']), .load 0 none none ]
+    = [ .done, .loaded ⟨[1, 2], [true, false], none⟩, .done, .loaded ⟨[2, 2], [true, false, false, true], some ['A']⟩,
+        .loaded ⟨[1, 2], [true, false], none⟩ ] := by decide
+
+example : (runSession fmtB convB []
+      (([.load 7 none none] ++ Call.put 1 (.saved "h;1".toList [[true, false], [false, true]]) ::
+        [.put 0 (.delimited [['\t']] [[true, false]]), .load 0 (some '\t') none]) ++ Call.load 1 none (some ['A']) :: []))[4]?
+    = some (.loaded ⟨[2, 2], [true, false, false, true], some ['A']⟩) :=
+  session_loads fmtB convB clean_fmtB [.load 7 none none] [.put 0 (.delimited [['\t']] [[true, false]]), .load 0 (some '\t') none] []
+    1 (.saved "h;1".toList [[true, false], [false, true]]) none (some ['A']) [[true, false], [false, true]]
+    (by simp) (by decide) (by decide)
+
+/-- a file read with a delimiter it does not use is outside what the property names: one column of unparsable fields -/
+example : loadFieldsD (some ';') 2 "1,2\n3,4\n".toList = some ([2, 1], ["1,2", "3,4"].map String.toList) := by decide
+example : loadFieldsD (some '\t') 2 " 1\t2 # c\r\n\t\n".toList = some ([2, 2], ["1", "2", "", ""].map String.toList) := by decide
+
+example : loadTextD convB (some ',') 2 (saveText fmtB "x;y".toList [[true, false], [false, true]]) = some ([2, 2], [true, false, false, true]) :=
+  saved_file_with_comma fmtB convB clean_fmtB _ (by decide) _ 2 (by decide) (by decide) (by decide)
+
+example : loadTextD convB (some ';') 2 "1;0\n0;1\n".toList = loadText convB 2 "1;0\n0;1\n".toList :=
+  explicit_delimiter_agrees convB 2 ';' (Or.inr (Or.inl rfl)) _ (by decide)
+
 end text
 
 section vtk
@@ -232,6 +389,79 @@ theorem vtk_offsets_consistent (blocks : List (List α)) (k : Nat) (hk : k < blo
   · intro p hp
     rw [Nat.add_assoc, hskip (1 + p)]
     exact hhead.2 p hp
+
+/-- **the appended section byte by byte**: in the bytes written for the blocks (every word 8 bytes in the
+machine's byte order, the order the header declares), a reader finds at byte offset
+`o_k = Σ_{j<k} (size_j·8 + 8)` — the offset the header declares for element `k` — the UInt64 `size_k·8`,
+the 8 bytes of value `p` of the element at `o_k + 8 + 8·p`, and the section is `Σ_j (size_j·8 + 8)` bytes long.
+`enc`: the 8 bytes of a float64 (opaque); block sizes below 2^64 bytes. -/
+theorem vtk_bytes_layout (little : Bool) (enc : α → List Nat) (henc : ∀ a, (enc a).length = 8)
+    (blocks : List (List α)) (k : Nat) (hk : k < blocks.length) (hsize : blocks[k].length * 8 < 2 ^ 64) :
+    let o := ((blocks.take k).map (fun b => b.length * 8 + 8)).sum
+    let bytes := bodyBytes little enc (appended blocks)
+    readU64 little bytes o = some (blocks[k].length * 8) ∧
+    (∀ p (hp : p < blocks[k].length),
+      (bytes.drop (o + 8 + 8 * p)).take 8 = wordBytes little enc (Word.val (blocks[k][p]))) ∧
+    bytes.length = (blocks.map (fun b => b.length * 8 + 8)).sum := by
+  intro o bytes
+  obtain ⟨_, hmod, hlen, hvals⟩ := vtk_offsets_consistent blocks k hk
+  have hw : ∀ w ∈ appended blocks, (wordBytes little enc w).length = 8 := fun w _ => wordBytes_length little enc henc w
+  have ho : o = 8 * (o / 8) := by
+    have : o % 8 = 0 := hmod
+    omega
+  refine ⟨?_, ?_, ?_⟩
+  · have h1 : (bytes.drop o).take 8 = wordBytes little enc (Word.len (blocks[k].length * 8)) := by
+      rw [ho]
+      exact flatMap_drop_take _ 8 _ hw _ _ hlen
+    unfold readU64
+    simp only [h1, wordBytes_length little enc henc, if_true]
+    cases little with
+    | true => simp [wordBytes, ofLe64_le64 _ hsize]
+    | false => simp [wordBytes, ofLe64_le64 _ hsize]
+  · intro p hp
+    have e : o + 8 + 8 * p = 8 * (o / 8 + 1 + p) := by omega
+    rw [e]
+    exact flatMap_drop_take _ 8 _ hw _ _ (hvals p hp)
+  · show (bodyBytes little enc (appended blocks)).length = _
+    unfold bodyBytes
+    rw [flatMap_length_const _ 8 _ hw, appended_length, sum_blocks_eq]
+
+/-- **the appended bytes read back**: the reader that takes the declared offset of element `k`, reads the
+UInt64 byte count there and then that many bytes in groups of 8 (in the declared byte order) gets the byte
+count `size_k·8` and, value for value, the bytes of the element's values -/
+theorem vtk_bytes_read_back (little : Bool) (enc : α → List Nat) (henc : ∀ a, (enc a).length = 8)
+    (blocks : List (List α)) (k : Nat) (hk : k < blocks.length) (hsize : blocks[k].length * 8 < 2 ^ 64) :
+    readBlockBytes little (bodyBytes little enc (appended blocks)) (((blocks.take k).map (fun b => b.length * 8 + 8)).sum)
+      = some (blocks[k].length * 8, blocks[k].map enc) := by
+  obtain ⟨hread, _, _⟩ := vtk_bytes_layout little enc henc blocks k hk hsize
+  obtain ⟨_, hmod, _, _⟩ := vtk_offsets_consistent blocks k hk
+  have hdiv := sum_blocks_div (blocks.take k)
+  have hw : ∀ w ∈ appended blocks, (wordBytes little enc w).length = 8 := fun w _ => wordBytes_length little enc henc w
+  generalize ho : ((blocks.take k).map (fun b => b.length * 8 + 8)).sum = o at hread hmod hdiv
+  have e : o + 8 = 8 * (o / 8 + 1) := by omega
+  have hbody : ((bodyBytes little enc (appended blocks)).drop (o + 8)).take (blocks[k].length * 8)
+      = blocks[k].flatMap (fun a => wordBytes little enc (Word.val a)) := by
+    unfold bodyBytes
+    rw [e, flatMap_drop_const _ 8 _ hw, Nat.mul_comm blocks[k].length 8,
+      flatMap_take_const _ 8 _ (fun w hwm => hw w (List.mem_of_mem_drop hwm)), hdiv,
+      appended_block_words blocks k hk, List.flatMap_map]
+  have hv : ∀ a ∈ blocks[k], (wordBytes little enc (Word.val a)).length = 8 := fun a _ => wordBytes_length little enc henc _
+  unfold readBlockBytes
+  rw [hread]
+  simp only [hbody, flatMap_length_const _ 8 _ hv]
+  have h8 : blocks[k].length * 8 % 8 = 0 ∧ 8 * blocks[k].length = blocks[k].length * 8 := by omega
+  rw [if_pos h8, Nat.mul_div_cancel _ (by decide : 0 < 8), groups8_flatMap _ _ hv, List.map_map]
+  congr 2
+  apply List.map_congr_left
+  intro a _
+  cases little <;> simp [wordBytes]
+
+/-- non-vacuity: two blocks, values encoded as their own 8 bytes, on a big-endian and a little-endian machine -/
+example : readBlockBytes false (bodyBytes false le64 (appended [[1, 2, 3], [258, 5]])) 32 = some (16, [le64 258, le64 5]) :=
+  vtk_bytes_read_back false le64 le64_length [[1, 2, 3], [258, 5]] 1 (by decide) (by decide)
+
+example : bodyBytes true le64 (appended [[258]]) = [8, 0, 0, 0, 0, 0, 0, 0, 2, 1, 0, 0, 0, 0, 0, 0] := by decide
+example : bodyBytes false le64 (appended [[258]]) = [0, 0, 0, 0, 0, 0, 0, 8, 0, 0, 0, 0, 0, 0, 1, 2] := by decide
 
 /-- what `vtkRender` returns when it returns something -/
 theorem vtkRender_some (endian : Str) (sp : Str × Str × Str) (img : Image α) (file : VtkFile α)
